@@ -2,6 +2,7 @@
 //! the generated parent module for the fakes they run against).
 use super::*;
 use bytes::Bytes;
+use crate::shared::backend::channels::ServerChannel;
 
 const CLIENTS: [Entity; 2] = [Entity::from_raw(100), Entity::from_raw(101)];
 
@@ -335,3 +336,144 @@ fn c03_window_whitelist_nothold_alive() {
     despawn_scenarios(Policy::Whitelist, false, false);
 }
 
+
+// -------------------------------------------------------------------------------------------
+// C16: entity mappings; C03/C11: send_messages
+
+fn bytes_log_stubs_doc() {}
+
+/// First message sent to `client` on `channel`, if any, and the number of such messages.
+fn sent_to(server: &mut RepliconServer, client: Entity, channel: usize) -> (Option<Bytes>, usize) {
+    let mut first = None;
+    let mut count = 0;
+    for (to, ch, message) in server.drain_sent() {
+        if to == client && ch == channel {
+            if first.is_none() {
+                first = Some(message);
+            }
+            count += 1;
+        }
+    }
+    (first, count)
+}
+
+// HARNESS: c16_mappings_sent_once_to_owner
+// PROPS: C16 C03
+// TIER: quick
+// TIMEOUT: 900
+// DRIVES: collect_mappings, send_messages, ClientEntityMap::insert, SerializedData::write_mappings, Updates::set_mappings, Updates::send, Updates::is_empty, ClientTicks::set_update_tick, write_tick_cached
+// BOUNDS: 2 authorized clients; client 0 registers 2 mappings (server entities 1,2 -> client entities 43, 41), client 1 none (concrete scenario); one tick with nothing else to send; then a second tick; unwind 6
+#[kani::proof]
+#[kani::unwind(6)]
+#[kani::stub(<bytes::Bytes as core::ops::Drop>::drop, noop_bytes_drop)]
+#[kani::stub(log::max_level, log_off)]
+fn c16_mappings_sent_once_to_owner() {
+    // Entity ids are concrete: a symbolic id makes the varint length, hence the message allocation
+    // size, symbolic and reading the message back intractable (probe P23).
+    let x: u32 = 3;
+    let mut rows = [
+        ClientRow::authorized(CLIENTS[0], 1200, None),
+        ClientRow::authorized(CLIENTS[1], 1200, None),
+    ];
+    rows[0].auth_mut().entity_map.insert(Entity::from_raw(1), Entity::from_raw(40 + x));
+    rows[0].auth_mut().entity_map.insert(Entity::from_raw(2), Entity::from_raw(41));
+    let mut server = server_with_channels();
+    let mut serialized = SerializedData::default();
+    let mut entity_buffer = EntityBuffer::default();
+    let this_run = Tick::new(100);
+    let change_tick = SystemChangeTick { last_run: Tick::new(90), this_run };
+    let time = Time::default();
+    let tick = RepliconTick::new(7);
+
+    collect_mappings(&mut serialized, &mut Query::new(&mut rows)).unwrap();
+    send_messages(&mut Query::new(&mut rows), &mut server, tick, false, &mut serialized, &mut entity_buffer, change_tick, &time).unwrap();
+
+    // The owner gets exactly one update message: flags = MAPPINGS only, tick 7, then the pairs
+    // (unsized, last section); the other client gets nothing; the map is drained.
+    let (message, count) = sent_to(&mut server, CLIENTS[0], ServerChannel::Updates as usize);
+    assert!(count == 1);
+    let message = message.unwrap();
+    assert!(message.len() == 6);
+    assert!(message[0] == 0b0001 && message[1] == 7);
+    assert!(message[2] == 1 << 1 && message[3] == ((40 + x) << 1) as u8);
+    assert!(message[4] == 2 << 1 && message[5] == 41 << 1);
+    assert!(rows[0].auth().entity_map.is_empty());
+    assert!(rows[0].auth().ticks.update_tick() == tick);
+    // Nothing for the other client, and its update tick does not move.
+    assert!(rows[1].auth().ticks.update_tick() == RepliconTick::default());
+
+    // Next tick (as `send_replication` does: clear, collect, send): nothing is sent again.
+    serialized.clear();
+    for row in rows.iter_mut() {
+        row.auth_mut().updates.clear();
+        row.auth_mut().mutations.clear();
+    }
+    collect_mappings(&mut serialized, &mut Query::new(&mut rows)).unwrap();
+    send_messages(&mut Query::new(&mut rows), &mut server, RepliconTick::new(8), false, &mut serialized, &mut entity_buffer, change_tick, &time).unwrap();
+    let mut leftovers = 0;
+    for _ in server.drain_sent() {
+        leftovers += 1;
+    }
+    assert!(leftovers == 0);
+    assert!(rows[0].auth().ticks.update_tick() == tick);
+    kani::cover!(leftovers == 0, "second tick silent");
+    kani::cover!(count == 1, "one update message for the owner");
+    core::mem::forget((message, rows, server, serialized, entity_buffer));
+}
+
+/// One idle tick: nothing was collected for the client; `graphs` relationship graphs exist.
+fn idle_tick(graphs: usize, track: bool) -> (usize, usize) {
+    let mut rows = [ClientRow::authorized(CLIENTS[0], 1200, None)];
+    let mut server = server_with_channels();
+    let mut serialized = SerializedData::default();
+    let mut entity_buffer = EntityBuffer::default();
+    let change_tick = SystemChangeTick { last_run: Tick::new(90), this_run: Tick::new(100) };
+    let time = Time::default();
+    // What `send_replication` does at the start of a tick.
+    {
+        let auth = rows[0].auth_mut();
+        auth.updates.clear();
+        auth.mutations.clear();
+        auth.mutations.resize_related(graphs);
+    }
+    send_messages(&mut Query::new(&mut rows), &mut server, RepliconTick::new(7), track, &mut serialized, &mut entity_buffer, change_tick, &time).unwrap();
+    let (_, updates) = sent_to(&mut server, CLIENTS[0], ServerChannel::Updates as usize);
+    // `sent_to` drains everything, so count mutate messages from a second, identical run.
+    send_messages(&mut Query::new(&mut rows), &mut server, RepliconTick::new(7), track, &mut serialized, &mut entity_buffer, change_tick, &time).unwrap();
+    let (message, mutates) = sent_to(&mut server, CLIENTS[0], ServerChannel::Mutations as usize);
+    if track {
+        // Tracking: update tick 0, server tick 7, message count 1, mutate index (2 bytes), no entities.
+        let message = message.as_ref().unwrap();
+        assert!(message.len() == 5 && message[0] == 0 && message[1] == 7 && message[2] == 1);
+    }
+    // The update tick does not move without an update message.
+    assert!(rows[0].auth().ticks.update_tick() == RepliconTick::default());
+    core::mem::forget((message, rows, server, serialized, entity_buffer));
+    (updates, mutates)
+}
+
+// HARNESS: c11_idle_server_is_silent
+// PROPS: C11
+// TIER: quick
+// TIMEOUT: 900
+// DRIVES: send_messages, Mutations::is_empty, Mutations::resize_related, Mutations::clear, Mutations::send, Updates::is_empty, Updates::clear
+// BOUNDS: one authorized client, nothing collected, 0, 1 and 2 synchronized relationship graphs, mutate-message tracking off and on; unwind 6
+#[kani::proof]
+#[kani::unwind(6)]
+#[kani::stub(<bytes::Bytes as core::ops::Drop>::drop, noop_bytes_drop)]
+#[kani::stub(log::max_level, log_off)]
+fn c11_idle_server_is_silent() {
+    let mut graphs = 0;
+    while graphs < 3 {
+        // Nothing changed and nothing is tracked: no replication message at all.
+        let (updates, mutates) = idle_tick(graphs, false);
+        assert!(updates == 0);
+        assert!(mutates == 0);
+        graphs += 1;
+    }
+    // With per-tick tracking requested exactly one (empty) mutate message is sent.
+    let (updates, mutates) = idle_tick(1, true);
+    assert!(updates == 0 && mutates == 1);
+    kani::cover!(graphs == 3, "all graph counts executed");
+    kani::cover!(mutates == 1, "tracking message sent");
+}
